@@ -257,12 +257,19 @@ POLY_XSD = f'''<?xml version="1.0" encoding="UTF-8"?>
       </xs:sequence>
     </xs:extension></xs:complexContent>
   </xs:complexType>
+  <xs:element name="slot" type="p:Base"/>
   <xs:element name="poly">
     <xs:complexType>
       <xs:sequence>
         <xs:element name="part" type="p:Base" maxOccurs="unbounded">
           <xs:key name="entryKey"><xs:selector xpath="p:entry"/><xs:field xpath="@id"/></xs:key>
           <xs:keyref name="useRef" refer="p:entryKey"><xs:selector xpath="p:use"/><xs:field xpath="@ref"/></xs:keyref>
+        </xs:element>
+        <!-- the same declaration outside (loose) and inside (shelf) the scope of a constraint -->
+        <xs:element ref="p:slot" minOccurs="0" maxOccurs="unbounded"/>
+        <xs:element name="shelf" minOccurs="0" maxOccurs="unbounded">
+          <xs:complexType><xs:sequence><xs:element ref="p:slot" maxOccurs="unbounded"/></xs:sequence></xs:complexType>
+          <xs:unique name="shelfEntries"><xs:selector xpath=".//p:entry"/><xs:field xpath="@id"/></xs:unique>
         </xs:element>
       </xs:sequence>
     </xs:complexType>
@@ -516,6 +523,27 @@ def gen_poly(rng, fault=None):
             if fault == 'dangling_keyref' and i == 0:
                 part.children.append(N(P, 'use', [('', 'ref', '99')]))
         root.children.append(part)
+
+    def slot(ids):
+        sl = N(P, 'slot', [(XSI, 'type', 'p:Ext')], meta={'elem_only': True, 'xsi_type': True})
+        sl.children.append(N(P, 'title', text='slot'))
+        for k in ids:
+            sl.children.append(N(P, 'entry', [('', 'id', str(k))]))
+        return sl
+    kind = rng.choice(('none', 'loose', 'shelf', 'both')) if fault is None else {'dup_shelf': 'shelf', 'loose_only': 'loose'}.get(fault, 'none')
+    if kind in ('loose', 'both'):
+        for _ in range(rng.randint(1, 2)):
+            root.children.append(slot(rng.sample(range(1, 9), rng.randint(1, 2))))   # ids may repeat across loose slots: no scope
+    if kind in ('shelf', 'both'):
+        for _ in range(rng.randint(1, 2)):
+            shelf = N(P, 'shelf', meta={'elem_only': True})
+            ids = rng.sample(range(1, 40), rng.randint(2, 5))
+            cut = rng.randint(1, len(ids) - 1)
+            shelf.children.append(slot(ids[:cut]))
+            shelf.children.append(slot(ids[cut:]))
+            if fault == 'dup_shelf':
+                shelf.children[-1].children.append(N(P, 'entry', [('', 'id', '0%d' % ids[0])]))
+            root.children.append(shelf)
     return root
 
 
